@@ -28,11 +28,11 @@ Rep(tk, c) == [t |-> tk, c |-> c]
 Reps(c) ==
   CASE c = "RULENAME"   -> <<Rep("A", 0), Rep("B", 1), Rep("1b", 1), Rep("__asgn_r", 1)>>
     [] c = "ATTR"       -> <<Rep("x", 0), Rep("y", 1)>>
-    [] c = "RULEREF"    -> <<Rep("ID", 0), Rep("A", 1), Rep("B", 1), Rep("INTEGER", 1)>>
+    [] c = "RULEREF"    -> <<Rep("ID", 0), Rep("A", 1), Rep("B", 1), Rep("INTEGER", 1), Rep("A.B", 1), Rep("ID.x", 1)>>
     [] c = "PARAM"      -> <<Rep("skipws", 0), Rep("noskipws", 1), Rep("ws", 1), Rep("foo", 1)>>
     [] c = "ALIAS"      -> <<Rep("c", 0)>>
     [] c = "MATCHRULE"  -> <<Rep("ID", 0), Rep("A", 1)>>
-    [] c = "QNAME"      -> <<Rep("A", 0), Rep("INT", 1), Rep("OBJECT", 1), Rep("A.B", 1)>>
+    [] c = "QNAME"      -> <<Rep("A", 0), Rep("INT", 1), Rep("OBJECT", 1), Rep("A.B", 1), Rep("INT.y.z", 1)>>
     [] c = "IMPORTNAME" -> <<Rep("m", 0), Rep("m.n", 1)>>
     [] c = "LANGNAME"   -> <<Rep("l", 0), Rep("a-b", 1)>>
     [] c = "RID"        -> <<Rep("a", 0), Rep("b", 1)>>
@@ -45,6 +45,7 @@ Reps(c) ==
     [] c = "DOTS"       -> <<Rep("..", 0), Rep(".", 1)>>
 
 GramOf(d) == IF d = {} THEN GramLang ELSE Gram(d)
+TheSeeds == Seeds        \* evaluated once (a cfg substitution is re-evaluated at every use)
 
 \* the default (cost 0) phrase of an expression
 RECURSIVE Def(_, _), DefSeq(_, _, _)
@@ -74,12 +75,12 @@ Run(G, zr, d, td) ==
               [] e.op = "plus" -> Run(G, zr, d, <<e.x, Sr(e.x, e.c)>> \o rest)
 
 Init ==
-  /\ sd \in 1..Len(Seeds)
-  /\ LET s == Seeds[sd]  r == Run(GramOf(s.dev), s.zr, <<>>, s.todo) IN
+  /\ sd \in 1..Len(TheSeeds)
+  /\ LET s == TheSeeds[sd]  r == Run(GramOf(s.dev), s.zr, <<>>, s.todo) IN
      /\ done = r.done /\ todo = r.todo /\ n = s.n
 
 Go(d, td, m) ==
-  LET s == Seeds[sd]  r == Run(GramOf(s.dev), s.zr, d, td) IN
+  LET s == TheSeeds[sd]  r == Run(GramOf(s.dev), s.zr, d, td) IN
   /\ done' = r.done /\ todo' = r.todo /\ n' = m /\ sd' = sd
 
 Next ==
@@ -96,7 +97,7 @@ Next ==
 Spec == Init /\ [][Next]_vars
 
 Final == todo = <<>>
-SeedDev == Seeds[sd].dev
+SeedDev == TheSeeds[sd].dev
 
 ----------------------------------------------------------------------------
 \* (M) what TLC checks on every finished form
